@@ -634,13 +634,13 @@ static void
 write_cfg_line(const Cfg& c, const Scanner& sc)
 {
   char buf[1024];
-  std::snprintf(buf, sizeof buf, "cfg %s %d %d %d %d %d %d %d %d %d %s %s %s %s %s %d %d %d %d %s %s %s %s", c.geom.c_str(),
+  std::snprintf(buf, sizeof buf, "cfg %s %d %d %d %d %d %d %d %d %d %s %s %s %s %s %d %d %d %d %s %s %s %s %d", c.geom.c_str(),
                 sc.get_num_detectors_per_ring(), sc.get_num_rings(), c.span, c.max_delta, c.views, c.ntang, c.arc ? 1 : 0, c.tof_mash,
                 sc.is_tof_ready() ? sc.get_max_num_timing_poss() : 0, H(sc.get_effective_ring_radius()), H(sc.get_ring_spacing()),
                 H(sc.get_default_bin_size()), H(sc.get_intrinsic_azimuthal_tilt()), H(sc.is_tof_ready() ? sc.get_size_of_timing_pos() : 0.F),
                 sc.get_num_axial_blocks_per_bucket(), sc.get_num_transaxial_blocks_per_bucket(), sc.get_num_axial_crystals_per_block(),
                 sc.get_num_transaxial_crystals_per_block(), H(sc.get_axial_crystal_spacing()), H(sc.get_transaxial_crystal_spacing()),
-                H(sc.get_axial_block_spacing()), H(sc.get_transaxial_block_spacing()));
+                H(sc.get_axial_block_spacing()), H(sc.get_transaxial_block_spacing()), sc.get_max_num_non_arccorrected_bins());
   cur_cfg = buf;
   if (!c.name.empty())
     cur_cfg += " (" + c.name + ")";
